@@ -162,21 +162,37 @@ theorem groupsOk_sequence (ds : List Disc) :
   exact groupsOk_sequenceOf (isMutual_edge ds)
 
 /-- `strong_couplings` is the strictly increasing list of the names exchanged between two
-    mutually dependent disciplines or fed back by a discipline to itself (the labels of the
-    edges and self-loops lying on a cycle of the graph). -/
+    mutually dependent disciplines or fed back by a discipline to itself, the producer being a
+    strongly coupled discipline (the labels of the edges and self-loops lying on a cycle of the
+    graph; see `strongly_coupled_spec` for "strongly coupled"). -/
 theorem strong_couplings_spec (ds : List Disc) :
     (strongCouplings ds (sequence ds)).Pairwise (· < ·) ∧
     ∀ v, v ∈ strongCouplings ds (sequence ds) ↔
       ∃ i j, i < ds.length ∧ j < ds.length ∧ MutuallyDependent ds i j ∧
-        v ∈ outputsAt ds i ∧ v ∈ inputsAt ds j := by
+        v ∈ outputsAt ds i ∧ v ∈ inputsAt ds j ∧ i ∈ stronglyCoupled ds (sequence ds) true := by
   refine ⟨sorted_sortDedup _, fun v => ?_⟩
   rw [mem_strongCouplings (groupsOk_sequence ds)]
   constructor
-  · rintro ⟨i, j, hij, hvi, hvj⟩
+  · rintro ⟨i, j, hij, hvi, hvj, hsc⟩
     obtain ⟨hi, hj, hm⟩ := (mutualR_iff_mutuallyDependent ds i j).1 hij
-    exact ⟨i, j, hi, hj, hm, hvi, hvj⟩
-  · rintro ⟨i, j, hi, hj, hm, hvi, hvj⟩
-    exact ⟨i, j, (mutualR_iff_mutuallyDependent ds i j).2 ⟨hi, hj, hm⟩, hvi, hvj⟩
+    exact ⟨i, j, hi, hj, hm, hvi, hvj, hsc⟩
+  · rintro ⟨i, j, hi, hj, hm, hvi, hvj, hsc⟩
+    exact ⟨i, j, (mutualR_iff_mutuallyDependent ds i j).2 ⟨hi, hj, hm⟩, hvi, hvj, hsc⟩
+
+/-- Without state variables the side condition of `strong_couplings_spec` is automatic: a name
+    exchanged between mutually dependent disciplines is a strong coupling. -/
+theorem strong_couplings_of_edge_on_cycle (ds : List Disc) (i j : Nat) (v : String)
+    (hi : i < ds.length) (hj : j < ds.length) (hm : MutuallyDependent ds i j)
+    (hvi : v ∈ outputsAt ds i) (hvj : v ∈ inputsAt ds j) (hst : v ∉ statesAt ds i) :
+    v ∈ strongCouplings ds (sequence ds) := by
+  rw [(strong_couplings_spec ds).2]
+  refine ⟨i, j, hi, hj, hm, hvi, hvj, ?_⟩
+  rw [mem_stronglyCoupled (groupsOk_sequence ds)]
+  refine ⟨hi, ?_⟩
+  by_cases hij : j = i
+  · subst hij
+    exact Or.inr (selfCoupledAt_iff.2 ⟨v, hvi, hvj, hst⟩)
+  · exact Or.inl ⟨j, hij, (mutualR_iff_mutuallyDependent ds i j).2 ⟨hi, hj, hm⟩⟩
 
 /-- `strongly_coupled_disciplines` are exactly the disciplines on a cycle: mutually dependent
     with another discipline, or self-coupled. -/
@@ -239,7 +255,7 @@ theorem all_couplings_spec (ds : List Disc) :
 /-- Every strong coupling is a coupling. -/
 theorem strong_subset_all (ds : List Disc) (v : String)
     (hv : v ∈ strongCouplings ds (sequence ds)) : v ∈ allCouplings ds := by
-  obtain ⟨i, j, _, _, _, hvi, hvj⟩ := ((strong_couplings_spec ds).2 v).1 hv
+  obtain ⟨i, j, _, _, _, hvi, hvj, _⟩ := ((strong_couplings_spec ds).2 v).1 hv
   rw [mem_allCouplings]
   unfold outputsAt at hvi
   unfold inputsAt at hvj
@@ -624,8 +640,8 @@ theorem stage_order_invariance (ds ds' : List Disc) (σ τ : Nat → Nat) (h : R
 
 /-- `A: x ↦ a`, `B: a,c ↦ b`, `C: b ↦ c`, `D: c,d ↦ d`, `E` without data. -/
 def exampleDiscs : List Disc :=
-  [⟨"A", ["x"], ["a"]⟩, ⟨"B", ["a", "c"], ["b"]⟩, ⟨"C", ["b"], ["c"]⟩, ⟨"D", ["c", "d"], ["d"]⟩,
-   ⟨"E", [], []⟩]
+  [⟨"A", ["x"], ["a"], []⟩, ⟨"B", ["a", "c"], ["b"], []⟩, ⟨"C", ["b"], ["c"], []⟩,
+   ⟨"D", ["c", "d"], ["d"], []⟩, ⟨"E", [], [], []⟩]
 
 example : sequence exampleDiscs = [[[0]], [[1, 2]], [[3], [4]]] := by decide +kernel
 
@@ -640,6 +656,14 @@ example : weakCouplings exampleDiscs (sequence exampleDiscs) = ["a"] := by decid
 example : allCouplings exampleDiscs = ["a", "b", "c", "d"] := by decide +kernel
 example : stronglyCoupled exampleDiscs (sequence exampleDiscs) true = [1, 2, 3] := by decide +kernel
 example : weaklyCoupled exampleDiscs (sequence exampleDiscs) = [0, 4] := by decide +kernel
+-- if `d` is a state variable of D, D is no longer self-coupled: weakly coupled, `d` a weak coupling
+def exampleDiscsState : List Disc :=
+  [⟨"A", ["x"], ["a"], []⟩, ⟨"B", ["a", "c"], ["b"], []⟩, ⟨"C", ["b"], ["c"], []⟩,
+   ⟨"D", ["c", "d"], ["d"], ["d"]⟩, ⟨"E", [], [], []⟩]
+example : strongCouplings exampleDiscsState (sequence exampleDiscsState) = ["b", "c"] := by
+  decide +kernel
+example : weakCouplings exampleDiscsState (sequence exampleDiscsState) = ["a", "d"] := by
+  decide +kernel
 
 /-- The same disciplines listed backwards. -/
 def exampleDiscsRev : List Disc := exampleDiscs.reverse
@@ -670,8 +694,8 @@ example : initOrder exampleDiscs (fun i => if i = 3 then ["d"] else [])
 
 /-! ### Non-vacuity of the composition theorems: `A: a = 1 + 2x`, `B: b = 3a`, input `x = 3` -/
 
-def exA : LinDisc := ⟨⟨"A", ["x"], ["a"]⟩, [⟨"a", 1, [("x", 2)]⟩]⟩
-def exB : LinDisc := ⟨⟨"B", ["a"], ["b"]⟩, [⟨"b", 0, [("a", 3)]⟩]⟩
+def exA : LinDisc := ⟨⟨"A", ["x"], ["a"], []⟩, [⟨"a", 1, [("x", 2)]⟩]⟩
+def exB : LinDisc := ⟨⟨"B", ["a"], ["b"], []⟩, [⟨"b", 0, [("a", 3)]⟩]⟩
 
 theorem exA_wf : exA.WF := ⟨by decide, by decide⟩
 theorem exB_wf : exB.WF := ⟨by decide, by decide⟩
